@@ -57,11 +57,11 @@ theorem ite_assemble (cx : Cx) (fuel : Nat) (E : Nat) (s s' : St) (env : Src.Env
     (trE : Nat → Src.B → Src.B × Nat) (sE : St) (hel : ElseOK cx E s env sE ep trE) (hstk : SameStk s s')
     (hleB : ∀ d ∈ brs, NamedLe d.sB s') (hleE : NamedLe sE s') :
     PieceOK cx (frontOf brs ++ ep ++ backOf brs ++ [.label E false]) s s'
-      (fun k b => Src.trBranches fuel [] env (srcBranches brs) k (trE k b).2 (trE k b).1) env := by
-  have hgrow : ∀ k b, Grow cx.Z b (Src.trBranches fuel [] env (srcBranches brs) k (trE k b).2 (trE k b).1).1 := by
+      (fun k b => Src.trBranches fuel cx.sm env (srcBranches brs) k (trE k b).2 (trE k b).1) env := by
+  have hgrow : ∀ k b, Grow cx.Z b (Src.trBranches fuel cx.sm env (srcBranches brs) k (trE k b).2 (trE k b).1).1 := by
     intro k b
     -- the chain lemma's growth part does not look at the placement; use it with a dummy placement-free argument
-    have : ∀ (brs' : List BrD), (∀ d ∈ brs', BrOK cx fuel E s env d) → ∀ k e b', Grow cx.Z b' (Src.trBranches fuel [] env (srcBranches brs') k e b').1 := by
+    have : ∀ (brs' : List BrD), (∀ d ∈ brs', BrOK cx fuel E s env d) → ∀ k e b', Grow cx.Z b' (Src.trBranches fuel cx.sm env (srcBranches brs') k e b').1 := by
       intro brs'
       induction brs' with
       | nil => intro _ k e b'; simp only [srcBranches]; rw [Src.trBranches]; exact Grow.refl _
@@ -71,10 +71,10 @@ theorem ite_assemble (cx : Cx) (fuel : Nat) (E : Nat) (s s' : St) (env : Src.Env
         rw [Src.trBranches]
         dsimp only
         have g1 := ih (fun x hx => hall x (by simp [hx])) k e b'
-        generalize Src.trBranches fuel [] env (srcBranches rest) k e b' = R1 at g1 ⊢
+        generalize Src.trBranches fuel cx.sm env (srcBranches rest) k e b' = R1 at g1 ⊢
         obtain ⟨b1, re⟩ := R1
         have g2 := (hall d (by simp)).grow k b1
-        generalize Src.trStmts fuel [] env (toSrcStmts d.body) k b1 = R2' at g2 ⊢
+        generalize Src.trStmts fuel cx.sm env (toSrcStmts d.body) k b1 = R2' at g2 ⊢
         obtain ⟨b2, be⟩ := R2'
         simp only at g1 g2 ⊢
         have tc : ∀ (ts : List Ev) (x y : Nat) (b0 : Src.B), Grow cx.Z b0 (Src.testChain env.subst ts x y b0).1 := by
